@@ -4,12 +4,8 @@ NOTES = ("Every check is `bin/vcheck <id> --tier quick|thorough`: TLC model-chec
          "spec/<engine>, exports behaviours/vectors, a C++ driver replays them into the real votca code built "
          "from /repo's working tree (and/or traces recorded from the real code are validated by TLC). Exit 2 = "
          "broken infrastructure, never a verdict. Repaired defects and findings: known_findings.txt.")
-NOT_APPLICABLE = {
-    "C15": "smooth function of continuous positions/moments whose stated reference is a limit (point-charge clusters "
-           "shrinking to a site) with irrational tensor coefficients; no state, history or discrete case analysis "
-           "for an explicit TLA+ model to decide (DESIGN.md section 6)",
-}
+NOT_APPLICABLE = {}
 CHECKS = {}   # filled by bin/mkmanifest from engines/<id>.py: MANIFEST
 
 # engines that are finished and reviewed; only these are registered in MANIFEST.json
-ENABLED = ["C01", "C02", "C03", "C04", "C05", "C06", "C07", "C08", "C09", "C10", "C11", "C12", "C13", "C14", "C16", "C17", "C18", "C19", "C20"]
+ENABLED = ["C01", "C02", "C03", "C04", "C05", "C06", "C07", "C08", "C09", "C10", "C11", "C12", "C13", "C14", "C15", "C16", "C17", "C18", "C19", "C20"]
